@@ -99,6 +99,25 @@ class ProgramRaise(AnalysisError):
         self.exc = exc
 
 
+def _module_constant(module, name):
+    """value node of a module-level `NAME = <literal table>` (assigned exactly once at module level)"""
+    tree = getattr(module, "tree", None)
+    if tree is None:
+        return None
+    hits = [st.value for st in tree.body if isinstance(st, ast.Assign) and len(st.targets) == 1 and isinstance(st.targets[0], ast.Name) and st.targets[0].id == name]
+    return hits[0] if len(hits) == 1 else None
+
+
+class Closure:
+    """a nested `def` or a lambda of the interpreted program: called with the variables of the enclosing run in view"""
+
+    def __init__(self, node):
+        self.node = node
+
+    def __repr__(self):
+        return "<closure %s>" % getattr(self.node, "name", "lambda")
+
+
 class _Return(Exception):
     def __init__(self, value):
         self.value = value
@@ -112,6 +131,10 @@ class _Break(Exception):
     pass
 
 
+_OPERATOR_CMP = {"le": ast.LtE, "ge": ast.GtE, "lt": ast.Lt, "gt": ast.Gt, "eq": ast.Eq, "ne": ast.NotEq}
+_OPERATOR_FUNCS = {"add": (ast.Add, ("__op_a", "__op_b")), "iadd": (ast.Add, ("__op_a", "__op_b")), "sub": (ast.Sub, ("__op_a", "__op_b")),
+                   "isub": (ast.Sub, ("__op_a", "__op_b")), "mul": (ast.Mult, ("__op_a", "__op_b")), "imul": (ast.Mult, ("__op_a", "__op_b")),
+                   "truediv": (ast.Div, ("__op_a", "__op_b")), "itruediv": (ast.Div, ("__op_a", "__op_b")), "neg": (ast.USub, ("__op_a",))}
 _EXC_PARENTS = {"KeyError": ("LookupError",), "IndexError": ("LookupError",), "ZeroDivisionError": ("ArithmeticError",),
                 "StopIteration": (), "AssertionError": (), "ValueError": (), "TypeError": (), "AttributeError": (), "NotImplementedError": ("RuntimeError",)}
 
@@ -144,6 +167,14 @@ class IndexInterp:
                 return self.env[e.id]
             if e.id in self.symbolic:
                 return ("array", e.id)
+            if self.home is not None and self.home[1] is not None:
+                v0 = _module_constant(self.home[1], e.id)
+                if v0 is not None:
+                    sub = IndexInterp({})
+                    sub.home = self.home
+                    val = sub.ev(v0)
+                    self.env[e.id] = val
+                    return val
             raise AnalysisError("unbound name `%s` in an index program" % e.id)
         if isinstance(e, ast.Tuple):
             return tuple(self.ev(x) for x in e.elts)
@@ -360,6 +391,8 @@ class IndexInterp:
             return ("attr", d or src(e))
         if isinstance(e, ast.Call):
             return self._call(e)
+        if isinstance(e, ast.Lambda):
+            return Closure(e)
         raise AnalysisError("expression `%s` outside the index-program fragment" % src(e)[:60])
 
     def _matrix_op(self, e, a, b):
@@ -437,11 +470,30 @@ class IndexInterp:
             r = self.on_call(e, self)
             if r is not NotImplemented:
                 return r
+        if isinstance(e.func, ast.Name) and isinstance(self.env.get(e.func.id), Closure):
+            return self.call_closure(self.env[e.func.id], self.call_args(e), {k.arg: self.ev(k.value) for k in e.keywords if k.arg}, e)
+        if isinstance(e.func, ast.Name) and e.func.id in ("map", "starmap") and len(e.args) >= 2 and e.func.id not in self.env:
+            f0 = self.ev(e.args[0])
+            seqs = [self._iterate(self.ev(a), e) for a in e.args[1:]]
+            rows = [list(xs) for xs in zip(*seqs)] if e.func.id == "map" else [list(self._iterate(xs, e)) for xs in seqs[0]]
+            if isinstance(f0, Closure):
+                return [self.call_closure(f0, r0, {}, e) for r0 in rows]
+            out = []
+            for r0 in rows:          # any other callable: the call `f(x, ...)` is evaluated like a call written in the program
+                names = ["__map_arg%d" % k0 for k0 in range(len(r0))]
+                for n0, v0 in zip(names, r0):
+                    self.env[n0] = v0
+                try:
+                    out.append(self.ev(ast.Call(func=e.args[0], args=[ast.Name(id=n0, ctx=ast.Load()) for n0 in names], keywords=[])))
+                finally:
+                    for n0 in names:
+                        self.env.pop(n0, None)
+            return out
         if self.home is not None:
             r = self._follow(e)
             if r is not NotImplemented:
                 return r
-        args = [self.ev(a) for a in e.args if not isinstance(a, ast.Starred)]
+        args = self.call_args(e)
         kw = {k.arg: self.ev(k.value) for k in e.keywords if k.arg}
         plain = isinstance(e.func, ast.Name) or (isinstance(e.func, ast.Attribute) and dotted(e.func.value) in ("itertools", "np", "numpy"))
         if plain and nm == "range" and all(isinstance(a, int) for a in args):
@@ -457,6 +509,16 @@ class IndexInterp:
             shape = args[0] if len(args) == 1 and isinstance(args[0], (tuple, list)) else args
             if all(isinstance(x, int) for x in shape):
                 return list(itertools.product(*[range(x) for x in shape]))
+        if plain and nm == "chain" and isinstance(e.func, (ast.Name, ast.Attribute)):
+            out = []
+            for a0 in args:
+                out.extend(self._iterate(a0, e))
+            return out
+        if nm == "from_iterable" and isinstance(e.func, ast.Attribute) and (dotted(e.func.value) or "").endswith("chain") and len(args) == 1:
+            out = []
+            for a0 in self._iterate(args[0], e):
+                out.extend(self._iterate(a0, e))
+            return out
         if plain and nm == "combinations" and len(args) == 2:
             return list(itertools.combinations(self._iterate(args[0], e), args[1]))
         if plain and nm == "combinations_with_replacement" and len(args) == 2:
@@ -486,6 +548,32 @@ class IndexInterp:
                 return set(items) if nm == "set" else frozenset(items)
             except TypeError:
                 raise AnalysisError("unhashable element in `%s`" % src(e)[:60])
+        if (isinstance(e.func, ast.Attribute) and nm == "sort" and not args) or (plain and nm == "sorted" and len(args) == 1 and isinstance(e.func, ast.Name)):
+            if nm == "sort":
+                try:
+                    seq = self.ev(e.func.value)
+                except AnalysisError:
+                    seq = None
+            else:
+                seq = self._iterate(args[0], e)
+            if isinstance(seq, list):
+                keyf = kw.get("key")
+                keys = []
+                for x in seq:
+                    k0 = x
+                    if isinstance(keyf, Closure):
+                        k0 = self.call_closure(keyf, [x], {}, e)
+                    elif keyf is not None:
+                        raise AnalysisError("sort key `%s` outside the index-program fragment" % src(e)[:60])
+                    keys.append(k0)
+                if not all(isinstance(k0, (int, float, str)) and not isinstance(k0, bool) for k0 in keys) or len({type(k0) is str for k0 in keys}) > 1:
+                    raise AnalysisError("the order produced by `%s` depends on symbolic values" % src(e)[:60])
+                order = sorted(range(len(seq)), key=lambda i0: keys[i0], reverse=bool(kw.get("reverse", False)))
+                out = [seq[i0] for i0 in order]
+                if nm == "sort":
+                    seq[:] = out
+                    return None
+                return out
         if isinstance(e.func, ast.Attribute) and nm in ("remove", "index", "count") and len(args) == 1:
             try:
                 base = self.ev(e.func.value)
@@ -563,6 +651,46 @@ class IndexInterp:
                 base = None
             if isinstance(base, str) and all(isinstance(a, (str, int, float, tuple)) and not is_token(a) for a in args):
                 return getattr(base, nm)(*args)
+        if isinstance(e.func, ast.Attribute) and nm == "update" and len(args) <= 1:
+            try:
+                base = self.ev(e.func.value)
+            except AnalysisError:
+                base = None
+            if isinstance(base, dict):
+                src0 = args[0] if args else {}
+                try:
+                    if isinstance(src0, dict):
+                        base.update(src0)
+                    else:
+                        for pair in self._iterate(src0, e):
+                            k0, v0 = self._iterate(pair, e) if not isinstance(pair, tuple) else pair
+                            base[k0] = v0
+                    base.update(kw)
+                except (TypeError, ValueError):
+                    raise AnalysisError("dict.update with `%s`" % src(e)[:60])
+                return None
+        ct = self.callee_text(e.func)
+        if ct.startswith("operator.") and ct[9:] in _OPERATOR_CMP and len(args) == 2 and not kw:
+            self.env["__op_a"], self.env["__op_b"] = args
+            try:
+                return self.ev(ast.Compare(left=ast.Name(id="__op_a", ctx=ast.Load()), ops=[_OPERATOR_CMP[ct[9:]]()], comparators=[ast.Name(id="__op_b", ctx=ast.Load())]))
+            finally:
+                self.env.pop("__op_a", None)
+                self.env.pop("__op_b", None)
+        if ct.startswith("operator.") and ct[9:] in _OPERATOR_FUNCS:
+            nm = ct[9:]
+        if (ct.startswith("operator.") or isinstance(e.func, ast.Attribute) and dotted(e.func.value) == "operator" or isinstance(e.func, ast.Name) and e.func.id not in self.env) \
+                and nm in _OPERATOR_FUNCS and len(args) == len(_OPERATOR_FUNCS[nm][1]) and not kw:
+            opcls, names = _OPERATOR_FUNCS[nm]
+            for n0, v0 in zip(names, args):
+                self.env[n0] = v0
+            try:
+                if len(names) == 2:
+                    return self.ev(ast.BinOp(left=ast.Name(id=names[0], ctx=ast.Load()), op=opcls(), right=ast.Name(id=names[1], ctx=ast.Load())))
+                return self.ev(ast.UnaryOp(op=opcls(), operand=ast.Name(id=names[0], ctx=ast.Load())))
+            finally:
+                for n0 in names:
+                    self.env.pop(n0, None)
         if isinstance(e.func, ast.Attribute) and nm in ("items", "keys", "values", "get", "copy"):
             base = self.ev(e.func.value)
             if isinstance(base, dict):
@@ -615,6 +743,50 @@ class IndexInterp:
             return kind in ts
         return ("call", self.callee_text(e.func), tuple(args), tuple(sorted(kw.items())))
 
+    def call_args(self, e):
+        """evaluated positional arguments of a call, `*iterable` expanded"""
+        out = []
+        for a in e.args:
+            if isinstance(a, ast.Starred):
+                out.extend(self._iterate(self.ev(a.value), a))
+            else:
+                out.append(self.ev(a))
+        return out
+
+    def call_closure(self, c, vals, kws, node):
+        n0 = c.node
+        a = n0.args
+        if a.vararg or a.kwarg or a.kwonlyargs or self.depth >= 6:
+            raise AnalysisError("call of `%s` outside the index-program fragment" % src(node)[:60])
+        ps = [x.arg for x in a.posonlyargs + a.args]
+        defaults = dict(zip(ps[len(ps) - len(a.defaults):], a.defaults))
+        env2 = dict(self.env)
+        for k0, p0 in enumerate(ps):
+            if k0 < len(vals):
+                env2[p0] = vals[k0]
+            elif p0 in kws:
+                env2[p0] = kws[p0]
+            elif p0 in defaults:
+                env2[p0] = self.ev(defaults[p0])
+            else:
+                raise ProgramRaise("TypeError", "missing argument `%s` in `%s`" % (p0, src(node)[:50]))
+        sub = type(self).__new__(type(self))
+        sub.__dict__.update(self.__dict__)
+        sub.__dict__.pop("ev", None)
+        sub.env = env2
+        sub.depth = self.depth + 1
+        try:
+            if isinstance(n0, ast.Lambda):
+                ret = sub.ev(n0.body)
+            else:
+                ret = sub.run(n0.body)
+        finally:
+            self.steps = sub.steps
+        for k0, v0 in sub.env.items():
+            if "." in k0:
+                self.env[k0] = v0
+        return ret
+
     def _follow(self, e):
         """A call of a private helper of the analysed package (method of the home class through self / cls / the class name, or function of the home
         module): interpreted in place, with the caller's view of `self.*` and of the class-level state, which it may update."""
@@ -630,7 +802,9 @@ class IndexInterp:
             r0 = repo.resolve_name(module, f.id)
             if isinstance(r0, ast.FunctionDef):
                 target = r0
-        if target is None or not target.name.startswith("_") or target.name.startswith("__") or self.depth >= 4:
+        same_module_function = target is not None and recv_self is None and isinstance(f, ast.Name) and getattr(target, "_module", None) is module \
+            and getattr(target, "_cls", None) is None
+        if target is None or target.name.startswith("__") or self.depth >= 4 or not (target.name.startswith("_") or same_module_function):
             return NotImplemented
         a = target.args
         if a.vararg or a.kwarg or a.kwonlyargs or any(isinstance(x, ast.Starred) for x in e.args) or any(k.arg is None for k in e.keywords):
@@ -664,6 +838,10 @@ class IndexInterp:
         sub.matrices = self.matrices
         try:
             ret = sub.run(target.body)
+        except ProgramRaise:
+            raise
+        except AnalysisError:
+            return NotImplemented          # the helper is outside the fragment on these arguments: it stays an opaque call, as before
         finally:
             self.steps = sub.steps
         for k0, v0 in sub.env.items():
@@ -711,6 +889,16 @@ class IndexInterp:
 
     def run(self, stmts):
         """-> returned value (or None).  Statement-level calls are appended to self.events as (node, value)."""
+        if self.home is None and stmts:
+            # the function being unrolled tells which module / class its private helpers and module-level tables belong to
+            n0 = stmts[0]
+            for _ in range(50):
+                n0 = getattr(n0, "_parent", None)
+                if n0 is None or (isinstance(n0, ast.FunctionDef) and getattr(n0, "_module", None) is not None):
+                    break
+            if n0 is not None and getattr(n0._module, "repo", None) is not None:
+                c0 = getattr(n0, "_cls", None)
+                self.home = (n0._module.repo, n0._module, c0.name if c0 is not None else None)
         try:
             self._block(stmts)
         except _Return as r:
@@ -779,6 +967,8 @@ class IndexInterp:
                 raise _Break()
             elif isinstance(s, (ast.Pass, ast.Import, ast.ImportFrom)):
                 continue
+            elif isinstance(s, ast.FunctionDef) and not s.decorator_list:
+                self.env[s.name] = Closure(s)
             elif isinstance(s, ast.Assert):
                 if self.check_asserts:
                     try:
